@@ -59,7 +59,13 @@ ViLists(ty) == IF ~IsAtt(ty) THEN {} ELSE
                    d == At(b, 1, Corrupt(b[1], <<"othermsg", 0>>, ty))
                    h == At(b, 1, Corrupt(b[1], <<"hybrid", 0>>, ty))
                IN UNION {{At(s, k, [s[k] EXCEPT !.vi = TRUE]) : k \in 1..T} : s \in {b, d, h}}
-FullLists(ty) == ValidLists(ty) \cup TooFewLists(ty) \cup SingleLists(ty) \cup DoubleLists(ty) \cup DupLists(ty) \cup ViLists(ty)
+\* misfiled partials: T or T+1 share indices out of 1..N+1, each filed partial made (validly, over A) with ANY share's
+\* key -- the honest lists, every combination of wrong-share / wrong-index partials with cluster keys, and among them
+\* the combinations whose errors cancel (CancelLists: a valid group signature comes out although shares are misfiled)
+MisfiledLists(ty) == UNION {{[k \in 1..Len(Asc(X)) |-> [Honest(Asc(X)[k], ty) EXCEPT !.by = b[Asc(X)[k]]]] : b \in [X -> Shares]}
+                            : X \in {X \in SUBSET (1..(N + 1)) : Cardinality(X) \in {T, T + 1}}}
+CancelLists(ty) == {l \in MisfiledLists(ty) : ~AllOK(l, ty) /\ CanBeValid(l, "A", ty)}
+FullLists(ty) == CancelLists(ty) \cup ValidLists(ty) \cup TooFewLists(ty) \cup SingleLists(ty) \cup DoubleLists(ty) \cup DupLists(ty) \cup ViLists(ty)
 \* reduced sets
 MediumLists(ty) == LET b == Base(1..T, ty) IN
                    {b, Base(Shares, ty), Base(1..(T - 1), ty), Append(Base(1..(T - 1), ty), b[1]), Append(b, b[1])}
@@ -75,6 +81,7 @@ PairLists(ty) == LET b == Base(1..T, ty) IN
 One(L) == {<<s>> : s \in L}
 Two(L) == {<<s1, s2>> : s1 \in L, s2 \in L}
 Three(L, ty) == {<<Base(1..T, ty), s, Base(Shares, ty)>> : s \in L} \cup {<<Base(1..T, ty), Base(Shares, ty), s>> : s \in L}
+MisfiledCalls(ty) == One(MisfiledLists(ty))
 FullCalls(ty) == One(FullLists(ty)) \cup Two(PairLists(ty)) \cup Three(PairLists(ty), ty) \cup {<<>>}
 MediumCalls(ty) == One(MediumLists(ty)) \cup {<<Base(1..T, ty), s>> : s \in SmallLists(ty)} \cup {<<s, Base(1..T, ty)>> : s \in SmallLists(ty)}
 SmallCalls(ty) == One(SmallLists(ty))
